@@ -1421,7 +1421,11 @@ bool World::op_cursor_ro(const Op &op, int k, bool &failed, bool &partial) {
             while (r > l && p.ref((uint8_t)c[r - 1])) r--;
         struct aws_byte_cursor t = side == 0 ? aws_byte_cursor_left_trim_pred(&x.c, p.lib) : side == 1 ? aws_byte_cursor_right_trim_pred(&x.c, p.lib) : aws_byte_cursor_trim_pred(&x.c, p.lib);
         PBT_CHECK(t.len == r - l, "%s(%s): length %zu, expected %zu", opname, p.name, t.len, r - l);
-        if (x.c.ptr) PBT_CHECK(t.ptr == x.c.ptr + l, "%s(%s): starts at offset %td, expected %zu", opname, p.name, t.ptr - x.c.ptr, l);
+        // where an EMPTY result sits (everything trimmed away) is left open: anywhere inside the source
+        if (x.c.ptr && r == l)
+            PBT_CHECK(t.ptr >= x.c.ptr && t.ptr <= x.c.ptr + x.c.len, "%s(%s): the empty result lies outside the source (offset %td)", opname, p.name,
+                      t.ptr - x.c.ptr);
+        else if (x.c.ptr) PBT_CHECK(t.ptr == x.c.ptr + l, "%s(%s): starts at offset %td, expected %zu", opname, p.name, t.ptr - x.c.ptr, l);
         else PBT_CHECK(t.ptr == nullptr, "%s of a NULL cursor returned a pointer", opname);
         if (r - l != c.size()) ctx.tag("trimmed");
         return true;
